@@ -127,6 +127,9 @@ func switchCases(fn *ast.FuncDecl, want string) []any {
 }
 
 func leanNatList(name string, xs []any) string {
+	if len(xs) == 0 {
+		fail("%s: nothing found where the table is expected (the code no longer has the shape the extractor reads)", name)
+	}
 	ss := make([]string, len(xs))
 	for i, x := range xs {
 		ss[i] = strconv.Itoa(x.(int))
@@ -135,6 +138,9 @@ func leanNatList(name string, xs []any) string {
 }
 
 func leanStrList(name string, xs []string) string {
+	if len(xs) == 0 {
+		fail("%s: nothing found where the table is expected (the code no longer has the shape the extractor reads)", name)
+	}
 	ss := make([]string, len(xs))
 	for i, x := range xs {
 		ss[i] = strconv.Quote(x)
